@@ -19,6 +19,9 @@ __TAPKEE_IMPLEMENTATION(tDistributedStochasticNeighborEmbedding)
     {
         parameters[sne_perplexity].checked().satisfies(InClosedRange<ScalarType>(0.0, (n_vectors - 1) / 3.0)).orThrow();
         parameters[sne_theta].checked().satisfies(NonNegativity<ScalarType>()).orThrow();
+        // the Barnes-Hut approximation (theta > 0) relies on a quadtree, that is on a two-dimensional map
+        if (static_cast<ScalarType>(parameters[sne_theta]) > 0.0)
+            parameters[target_dimension].checked().satisfies(InClosedRange<IndexType>(2, 2)).orThrow();
     }
 
     TapkeeOutput embed()
